@@ -36,6 +36,7 @@ def run(ctx):
     malsec.multiply_impls(ctx, facts, "WHO-multiply")
     malsec.dzkp_validate_path(ctx, facts, "PATH-verdict")
     affine_ids(ctx, facts)
+    fresh_key(ctx, facts)
     from rules import C02
     C02.downgrade_users(ctx, facts)    # who may read a MAC-protected share without its check
     ctx.assume("detection probability (1/|F|) and algebraic soundness of the MAC scheme are not decided")
@@ -212,3 +213,61 @@ def affine_ids(ctx, facts):
                         seen.setdefault(v, (nm, off))
             ctx.ob("AFFINE-ids", f"total@{body.root}", bad is None, f"total={tot}: ids of {names} are pairwise distinct for offsets 0..32" if bad is None else bad, site_of(body, uses[0][1]))
     ctx.floor("AFFINE-ids", "call-site groups", n, 2)
+
+
+# ---------------------------------------------------------------------------------------------
+def fresh_key(ctx, facts):
+    """Validating a batch opens r*v and with it, to a cheating helper, effectively r itself: every batch needs its own r."""
+    ctx.rule("FRESH-r: wherever a `Malicious` validator (one per validation batch) is constructed, its MAC key r_share is drawn there from PRSS at an index that is a function of the batch offset stored in the same instance (never a value handed in or cloned across batches); u and w masks likewise; the batch constructor handed to the Batcher passes its batch index as that offset")
+    n = 0
+    for b in sorted(facts.non_test_bodies(), key=lambda x: x.path):
+        for bb, idx, s in b.iter_assigns():
+            r = s["r"]
+            if not (r["k"] == "agg" and (r.get("adt") or "").endswith("context::validator::Malicious")):
+                continue
+            n += 1
+            names = [f["name"] for f in facts.adts[r["adt"]]["variants"][0]["fields"]]
+            ops = {nm: flow.expr_of(b, o, max_depth=12) for nm, o in zip(names, r["ops"])}
+            off = ops.get("offset")
+            rs = ops.get("r_share")
+            ok, why = False, "the validator has no r_share / offset field"
+            if off is not None and rs is not None:
+                src = malsec.value_source(rs, r"SharedRandomness::generate$")
+                if src is None and rs[0] == "arg" and len(rs) == 2 and off[0] == "arg" and len(off) == 2:
+                    # handed in: then every caller must draw it per batch, next to the offset it passes
+                    sites = [(cb, cbb, ct) for cb in facts.non_test_bodies() for cbb, ct in cb.calls() if (F.callee(ct)[0] or "") == b.path]
+                    good = bool(sites)
+                    for cb, cbb, ct in sites:
+                        ra = flow.expr_of(cb, ct["args"][rs[1] - 1], max_depth=12)
+                        oa = flow.expr_of(cb, ct["args"][off[1] - 1], max_depth=6)
+                        rsrc = malsec.value_source(ra, r"SharedRandomness::generate$")
+                        if rsrc is None or str(oa) not in str(rsrc[2][1]) or oa[0] not in ("arg",):
+                            good = False
+                    ok = good
+                    why = "r_share is drawn by each caller from PRSS at an index depending on the batch offset it passes" if ok else "r_share is handed to the validator's constructor and at least one caller does not draw it from PRSS per batch offset (the same r would protect several batches, and it is revealed by the first validation)"
+                elif src is None:
+                    why = f"r_share is {str(rs)[:80]}: not drawn from PRSS where the batch's validator is built (the same r would protect several batches, and it is revealed by the first validation)"
+                else:
+                    index = src[2][1]
+                    dep = str(off) in str(index)
+                    ok = dep
+                    why = "r_share = prss.generate(index(offset)) with this instance's own offset" if ok else "the PRSS index of r_share does not depend on the batch offset: every batch gets the same r"
+            ctx.ob("FRESH-r", f"r-per-batch@{b.path.split('::')[-1]}", ok, why, site_of(b, bb, idx))
+            acc = str(ops.get("accumulator"))
+            oku = off is not None and acc.count("SharedRandomness::zero") >= 2 and acc.count(str(off)) >= 2
+            ctx.ob("FRESH-r", f"u-w-per-batch@{b.path.split('::')[-1]}", oku, "u and w start from PRSS zero-shares indexed by the offset" if oku else "u / w are not initialised from per-batch PRSS zero shares", site_of(b, bb, idx))
+    ctx.floor("FRESH-r", "Malicious validator construction sites", n, 1)
+    # the Batcher's constructor closure: |batch_index| Malicious::new(ctx, batch_index)
+    hit = False
+    for b in facts.non_test_bodies():
+        if b.kind != "Closure":
+            continue
+        for bb, t in b.calls():
+            fn = F.callee(t)[0] or ""
+            if fn.endswith("validator::Malicious::<'a, F, B>::new"):
+                hit = True
+                a = flow.expr_of(b, t["args"][1], max_depth=6)
+                okb = a == ("arg", 2)
+                ctx.ob("FRESH-r", "batch-constructor-passes-its-index", okb, "Malicious::new(ctx, batch_index, ..)" if okb else "the per-batch constructor does not pass its own batch index as the validator's offset", site_of(b, bb))
+    if not hit:
+        ctx.missing("FRESH-r", "closure calling Malicious::new(ctx, batch_index)")
